@@ -89,7 +89,8 @@ Record arch := {
   a_strip : bool;        (* arm64 ptr_auth_strip *)
   a_cutoff : Z;          (* nullish instruction pointer *)
   a_adj : Z;             (* instruction = ip - adj *)
-  a_leaf : bool          (* sp may repeat between the context frame and its caller *)
+  a_leaf : bool;         (* sp may repeat between the context frame and its caller *)
+  a_sp_stop_le : bool    (* the progress check is `caller sp <= callee sp` (true) or `<` (false) *)
 }.
 
 Definition OS_OTHER : Z := 0.
@@ -370,7 +371,7 @@ Definition cascade (callee : frame) (gc : option frame) : outcome (option frame)
 Definition sp_progress (callee f : frame) : bool :=
   let sp := r_sp (f_regs f) in
   let last_sp := r_sp (f_regs callee) in
-  if sp <=? last_sp
+  if (if a_sp_stop_le a then sp <=? last_sp else sp <? last_sp)
   then a_leaf a && is_context (f_trust callee) && (sp =? last_sp)
   else true.
 
@@ -434,7 +435,7 @@ Definition x86 : arch := {|
   a_fp := FpX86; a_fp_guard_words := x86_fp_guard_words; a_bp := BpX86; a_max_gap := x86_max_gap;
   a_scan_context := x86_scan_context; a_scan_default := x86_scan_default; a_scan_skip := 0;
   a_pre_ok := fun x => negb (x =? 0); a_canon_fp := fun _ => true; a_strip := false;
-  a_cutoff := x86_ip_cutoff; a_adj := x86_adj; a_leaf := false |}.
+  a_cutoff := x86_ip_cutoff; a_adj := x86_adj; a_leaf := false; a_sp_stop_le := x86_sp_stop_le |}.
 
 Definition amd64 : arch := {|
   a_bits := amd64_bits; a_slot_bits := amd64_bits; a_pw := amd64_pw; a_trunc := false;
@@ -445,7 +446,7 @@ Definition amd64 : arch := {|
   a_scan_context := amd64_scan_context; a_scan_default := amd64_scan_default; a_scan_skip := 0;
   a_pre_ok := fun x => negb (amd64_non_canonical x || (x =? 0));
   a_canon_fp := fun x => negb (amd64_non_canonical x); a_strip := false;
-  a_cutoff := amd64_ip_cutoff; a_adj := amd64_adj; a_leaf := false |}.
+  a_cutoff := amd64_ip_cutoff; a_adj := amd64_adj; a_leaf := false; a_sp_stop_le := amd64_sp_stop_le |}.
 
 Definition arm : arch := {|
   a_bits := arm_bits; a_slot_bits := arm_bits; a_pw := arm_pw; a_trunc := false;
@@ -455,7 +456,7 @@ Definition arm : arch := {|
   a_fp := FpArm; a_fp_guard_words := arm_fp_guard_words; a_bp := BpNone; a_max_gap := 0;
   a_scan_context := arm_scan_context; a_scan_default := arm_scan_default; a_scan_skip := 0;
   a_pre_ok := fun _ => true; a_canon_fp := fun _ => true; a_strip := false;
-  a_cutoff := arm_ip_cutoff; a_adj := arm_adj; a_leaf := true |}.
+  a_cutoff := arm_ip_cutoff; a_adj := arm_adj; a_leaf := true; a_sp_stop_le := arm_sp_stop_le |}.
 
 (* arm64_old.rs is arm64.rs with the other context type (the translator checks this textually) *)
 Definition arm64 : arch := {|
@@ -467,7 +468,7 @@ Definition arm64 : arch := {|
   a_scan_context := arm64_scan_context; a_scan_default := arm64_scan_default; a_scan_skip := 0;
   a_pre_ok := fun x => negb (arm64_non_canonical x || (x =? 0));
   a_canon_fp := fun x => negb (arm64_non_canonical x); a_strip := true;
-  a_cutoff := arm64_ip_cutoff; a_adj := arm64_adj; a_leaf := true |}.
+  a_cutoff := arm64_ip_cutoff; a_adj := arm64_adj; a_leaf := true; a_sp_stop_le := arm64_sp_stop_le |}.
 
 Definition mips32 : arch := {|
   a_bits := 32; a_slot_bits := mips_slot_bits; a_pw := mips32_pw; a_trunc := true;
@@ -479,7 +480,7 @@ Definition mips32 : arch := {|
   a_scan_default := mips32_max_stack / mips32_pw - mips32_min_args;
   a_scan_skip := mips32_min_args * mips32_pw;
   a_pre_ok := fun x => negb (x <? mips_instr_min); a_canon_fp := fun _ => true; a_strip := false;
-  a_cutoff := mips_ip_cutoff; a_adj := mips_adj; a_leaf := true |}.
+  a_cutoff := mips_ip_cutoff; a_adj := mips_adj; a_leaf := true; a_sp_stop_le := mips_sp_stop_le |}.
 
 Definition mips64 : arch := {|
   a_bits := 64; a_slot_bits := mips_slot_bits; a_pw := mips64_pw; a_trunc := false;
@@ -491,4 +492,4 @@ Definition mips64 : arch := {|
   a_scan_default := mips64_max_stack / mips64_pw;
   a_scan_skip := 0;
   a_pre_ok := fun x => negb (x <? mips_instr_min); a_canon_fp := fun _ => true; a_strip := false;
-  a_cutoff := mips_ip_cutoff; a_adj := mips_adj; a_leaf := true |}.
+  a_cutoff := mips_ip_cutoff; a_adj := mips_adj; a_leaf := true; a_sp_stop_le := mips_sp_stop_le |}.
